@@ -224,6 +224,39 @@ Section Laws.
     rewrite E2. reflexivity.
   Qed.
 
+  (* the law does not depend on the route: [compile_file] is the one entry point both for a linked
+     file ([link]) and for an included one ([block] on Include), so a '.once' file given again as a
+     linked file contributes nothing either ... *)
+  Lemma once_linked_again fs g body k rest a t :
+    fs g = Once :: body -> (1 <= count t g)%nat ->
+    link fs (S k) (g :: rest) a t = link fs (S k) rest a (g :: t).
+  Proof.
+    intros Hg Hc. cbn [Structure.link]. rewrite (once_again fs g body k a t Hg Hc). cbn [bind fst snd].
+    replace (a + Zlen []) with a by (unfold Zlen; simpl; lia).
+    destruct (link fs (S k) rest a (g :: t)) as [[bs t']| | |]; reflexivity.
+  Qed.
+
+  (* ... and an included one after it was linked *)
+  Lemma once_included_again fs g body k me rest a t :
+    fs g = Once :: body -> (1 <= count t g)%nat ->
+    block (compile_file fs (S k)) me (Include g :: rest) a t = block (compile_file fs (S k)) me rest a (g :: t).
+  Proof.
+    intros Hg Hc. cbn [Structure.block]. rewrite (once_again fs g body k a t Hg Hc). cbn [bind fst snd].
+    replace (a + Zlen []) with a by (unfold Zlen; simpl; lia).
+    destruct (block (compile_file fs (S k)) me rest a (g :: t)) as [[bs t']| | |]; reflexivity.
+  Qed.
+
+  (* a '.once' file listed twice on the command line is the file listed once *)
+  Lemma once_listed_twice fs g body k a t :
+    fs g = Once :: body ->
+    image (link fs (S k) [g; g] a t) = image (link fs (S k) [g] a t).
+  Proof.
+    intros Hg. cbn [Structure.link].
+    destruct (compile_file fs (S k) g a t) as [[bs t1]| | |] eqn:E; cbn [bind]; try reflexivity.
+    cbn [fst snd]. rewrite (once_again fs g body k (a + Zlen bs) t1 Hg (compiled_counts fs (S k) g a t bs t1 E)).
+    reflexivity.
+  Qed.
+
   (* ---------------------------------------------------------------------------------------- *)
   (* linking = concatenation *)
   Lemma block_app rec me (s1 s2 : list stmt) : no_stop P s1 = true ->
